@@ -53,9 +53,12 @@ func UnregisterUnserializer(format formats.Format) {
 }
 
 func GetFormatUnserializer(format formats.Format) (native.Unserializer, error) {
-	if _, ok := unserializers[format]; ok {
+	regMtx.RLock()
+	u, ok := unserializers[format]
+	regMtx.RUnlock()
+	if ok {
 		verifhook.Point("reader.GetFormatUnserializer:between-check-and-fetch")
-		return unserializers[format], nil
+		return u, nil
 	}
 	return nil, fmt.Errorf("no serializer registered for %s", format)
 }
